@@ -367,3 +367,55 @@ fn ffi_no_growth_across_life_cycles() {
         }
     }
 }
+
+// ---- "every returned string is valid UTF-8", whatever the files of the data directory hold: a byte that is not UTF-8 inside a
+// JSON string of one of the three tables.  The context may refuse such a directory (creation panics: it is created through the
+// Rust API here, under catch_unwind, because a panic cannot cross the C boundary); if it accepts it, nothing it hands to the C
+// side may be ill-formed.
+#[test]
+fn ffi_strings_are_utf8_whatever_the_data_files_hold() {
+    unsafe {
+        std::env::set_var("XDG_DATA_HOME", "/nonexistent/riti-verif-miri");
+        let src = std::env::var("VERIF_MINI_DB").unwrap();
+        let k = |s: &str| -> Vec<u16> { s.chars().map(|c| 0xA096 + (c as u16 - 'a' as u16)).collect() };
+        for (n, file) in ["suffix.json", "dictionary.json", "autocorrect.json"].iter().enumerate() {
+            let dir = std::env::temp_dir().join(format!("riti-verif-ffi-dmg-{}-{}", std::process::id(), n));
+            let _ = std::fs::remove_dir_all(&dir);
+            std::fs::create_dir_all(&dir).unwrap();
+            for f in ["suffix.json", "dictionary.json", "autocorrect.json"] { std::fs::write(dir.join(f), std::fs::read(format!("{}/{}", src, f)).unwrap()).unwrap(); }
+            let mut bytes = std::fs::read(dir.join(file)).unwrap();
+            match bytes.iter().position(|b| *b >= 0x80) { Some(i) => bytes[i] = 0xFF, None => { let i = bytes.iter().rposition(|b| b.is_ascii_alphabetic()).unwrap(); bytes[i] = 0xFF; } }
+            std::fs::write(dir.join(file), &bytes).unwrap();
+            let cfg = riti_config_new();
+            let l = CString::new("avro_phonetic").unwrap();
+            assert!(riti_config_set_layout_file(cfg, l.as_ptr()));
+            let d = CString::new(dir.to_str().unwrap()).unwrap();
+            assert!(riti_config_set_database_dir(cfg, d.as_ptr()));
+            riti_config_set_phonetic_suggestion(cfg, true);
+            let hook = std::panic::take_hook();
+            std::panic::set_hook(Box::new(|_| {}));
+            let created = std::panic::catch_unwind(|| Box::into_raw(Box::new(riti::context::RitiContext::new_with_config(&*cfg))));
+            std::panic::set_hook(hook);
+            if let Ok(raw) = created {
+                let ctx = raw as *mut RitiContext;
+                for w in [k("amr"), k("kgulo"), k("x"), k("am")] {
+                    for key in w {
+                        let s = riti_get_suggestion_for_key(ctx, key, 0, 0);
+                        let mut ps: Vec<*mut c_char> = Vec::new();
+                        if riti_suggestion_is_lonely(s) { ps.push(riti_suggestion_get_lonely_suggestion(s)); ps.push(riti_suggestion_get_pre_edit_text(s, 0)); }
+                        else { ps.push(riti_suggestion_get_auxiliary_text(s)); for i in 0..riti_suggestion_get_length(s) { ps.push(riti_suggestion_get_suggestion(s, i)); ps.push(riti_suggestion_get_pre_edit_text(s, i)); } }
+                        for p in ps {
+                            assert!(CStr::from_ptr(p).to_str().is_ok(), "[C19] string handed to the C host is not valid UTF-8 (data directory with a damaged {})", file);
+                            riti_string_free(p);
+                        }
+                        riti_suggestion_free(s);
+                    }
+                    riti_context_finish_input_session(ctx);
+                }
+                riti_context_free(ctx);
+            }
+            riti_config_free(cfg);
+            let _ = std::fs::remove_dir_all(&dir);
+        }
+    }
+}
